@@ -8,6 +8,6 @@ CONSTANTS
   AllSentinelOrders = TRUE
   T = 2
 SPECIFICATION Spec
-INVARIANTS StrandSymmetry ExtensionLemma EmptyStaysEmpty FwdInv BwdInv Final MemsFastLemma
+INVARIANTS StrandSymmetry ExtensionLemma EmptyStaysEmpty FwdInv BwdInv Final MemsFastLemma BigMinLenLemma
 PROPERTY Progress
 CHECK_DEADLOCK FALSE
